@@ -150,14 +150,15 @@ def check_history(p1: int, k1: int, p2: int, k2: int, p3: int, k3: int, u1: int,
 
 def check_intgen(c: int, ops: int, n: int) -> bool:
     """
-    pre: 0 <= n <= 4 and 0 <= ops < 16
+    pre: 0 <= n <= 4 and 0 <= ops < 256
     post: POST(_)
     """
     # inductive step on the generator state: _current = c (symbolic, unbounded), then up to four
-    # peek/next calls (bit k of ops: 1 = next, 0 = peek)
+    # calls; two bits per call: 0 = peek, 1 = next() / next(g), 2 = draw through the iterator protocol and
+    # abandon the iteration (for x in g: break), 3 = next(iter(g))
     global LAST_DIFF
-    n = cs(n, 0, 4); ops = cs(ops, 0, 15)
-    if ops >> n:
+    n = cs(n, 0, 4); ops = cs(ops, 0, 255)
+    if ops >> (2 * n):
         return None
     g = xtuml.IntegerGenerator()
     first = g.peek()
@@ -166,7 +167,21 @@ def check_intgen(c: int, ops: int, n: int) -> bool:
     g._current = c
     cur = c
     for k in range(n):
-        if (ops >> k) & 1:
+        o = (ops >> (2 * k)) & 3
+        if o == 2:
+            v = None
+            for x in g:
+                v = x
+                break
+            if v != cur:
+                LAST_DIFF = ('for .. in generator', k); return False
+            cur = cur + 1
+        elif o == 3:
+            v = next(iter(g))
+            if v != cur:
+                LAST_DIFF = ('next(iter(generator))', k); return False
+            cur = cur + 1
+        elif o == 1:
             v = g.next() if k % 2 == 0 else next(g)
             if v != cur:
                 LAST_DIFF = ('next', k); return False
